@@ -2,7 +2,7 @@
  * ARBITRARY 256-bit set (so in particular for the seven sets of the Standard) and every input of up to BUF_N bytes. */
 void harness(void) {
   HAVOC_BUFS;
-  sv_t input; input.n = nondet_size(); MAKE_SV(input);
+  ND_SV(input);
   uint8_t set[32];
   char ref[3 * BUF_N + 1];
   size_t rn = ref_percent_encode(input, set, ref);
